@@ -444,6 +444,10 @@ def generate():
     for f in fns:
         A("Definition %s : nat := %d. (* %s, %s *)" % (coq_ident(f.qual), ids[f.qual], f.file, group_of(f)))
     A("")
+    A("(* names (the identifier after id_, as byte codes) for the model executable *)")
+    A("Definition fn_names : list (nat * list Z) :=")
+    A("[\n" + ";\n".join("  (%d, [%s]%%Z)" % (ids[f.qual], "; ".join(str(b) for b in coq_ident(f.qual)[3:].encode())) for f in fns) + "\n].")
+    A("")
     A("(* call graph: caller -> callees (over-approximated, see the translator's header) *)")
     A("Definition call_graph : list (nat * list nat) :=")
     rows = []
